@@ -463,6 +463,18 @@ func TestC03Enum(t *testing.T) {
 
 func TestC03Regress(t *testing.T) {
 	for _, s := range loadSaved(t, "C03") {
+		var probe struct {
+			Overlap bool `json:"overlap"`
+			A       int  `json:"size_a"`
+			B       int  `json:"size_b"`
+			Seg     bool `json:"a_segmented"`
+			Held    bool `json:"a_held"`
+		}
+		mustUnmarshal(t, s, &probe)
+		if probe.Overlap {
+			runOverlap(t, "C03", probe.A, probe.B, probe.Seg, probe.Held)
+			continue
+		}
 		var c c03Case
 		mustUnmarshal(t, s, &c)
 		runC03(t, c)
